@@ -551,7 +551,7 @@ Definition message_tied (m : message) (w : wiring) : Prop :=
 Lemma message_tied_of_ok mi m w : wiring_ok_c03 mi m w = true -> wiring_ok_c10 mi m w = true -> message_tied m w.
 Proof.
   unfold wiring_ok_c03, wiring_ok_c10. rewrite !andb_true_iff.
-  intros [[_ Hf] Hu] [[[[_ Hr] Hc] Hs] Hg]. unfold message_tied. repeat split.
+  intros [[_ Hf] Hu] [[[[[_ Hr] Hc] Hs] Hg] _]. unfold message_tied. repeat split.
   - intros st Hl. apply wiring_frame_correct; assumption.
   - intros f st Hl. apply wiring_unmarshal_correct; assumption.
   - intros st Hl. eapply wiring_reset_correct; eassumption.
@@ -711,4 +711,83 @@ Proof.
   - intros e He. rewrite forallb_forall in H2. specialize (H2 e He).
     apply existsb_exists in H2. destruct H2 as (m & Hm & H2). apply existsb_exists in H2. destruct H2 as (s & Hs & H2).
     apply andb_true_iff in H2. destruct H2 as [Hc Hn]. exists m, s. repeat split; try assumption. apply name_eqb_eq. exact Hn.
+Qed.
+
+(** ** generated node types (C11) *)
+Lemma first_case_map id : forall ms,
+  first_case (map (fun m => (msg_id m, msg_name m)) ms) id =
+  match find_message ms id with Some m => Some (msg_name m) | None => None end.
+Proof. induction ms as [|m tl IH]; cbn; [reflexivity|]. destruct (msg_id m =? id); [reflexivity|exact IH]. Qed.
+
+Lemma nodegen_ok_correct db n ng : nodegen_ok db n ng = true ->
+  ng_name ng = node_name n /\ ng_desc ng = node_name n /\
+  (forall id, wiring_received ng id =
+              Some (match find_message (collect_rx db n) id with Some m => Some (msg_name m) | None => None end)) /\
+  wiring_transmitted ng = Some (map msg_name (collect_tx db n)).
+Proof.
+  unfold nodegen_ok. rewrite !andb_true_iff. intros [[[[[[[[[[Hn Hd] _] _] _] _] _] _] Hdef] Hr] Ht].
+  apply name_eqb_eq in Hn. apply name_eqb_eq in Hd. split; [exact Hn|]. split; [exact Hd|].
+  unfold wiring_received, wiring_transmitted. rewrite Hdef.
+  destruct (resolved_received ng) as [l|]; [|discriminate]. cbn [opt_eqb] in Hr.
+  apply (list_eqb_eq (fun a b => (fst a =? fst b) && name_eqb (snd a) (snd b))) in Hr.
+  2:{ intros [a1 a2] [b1 b2]. cbn [fst snd]. rewrite andb_true_iff. intros [A B].
+      apply Z.eqb_eq in A. apply name_eqb_eq in B. subst. reflexivity. }
+  destruct (resolved_transmitted ng) as [l2|]; [|discriminate]. cbn [opt_eqb] in Ht.
+  apply (list_eqb_eq _ name_eqb_eq) in Ht. subst. split; [|reflexivity].
+  intros id. rewrite first_case_map. reflexivity.
+Qed.
+
+Theorem nodes_wiring_correct db p :
+  nodes_wiring_ok db p = true ->
+  (has_send_type db = false -> p_nodegens p = []) /\
+  (has_send_type db = true ->
+   Forall2 (fun n ng =>
+      ng_name ng = node_name n /\ ng_desc ng = node_name n /\
+      (forall id, wiring_received ng id =
+                  Some (match find_message (collect_rx db n) id with Some m => Some (msg_name m) | None => None end)) /\
+      wiring_transmitted ng = Some (map msg_name (collect_tx db n))) (db_nodes db) (p_nodegens p)).
+Proof.
+  unfold nodes_wiring_ok. intros H. split; intros Hs; rewrite Hs in H.
+  - destruct (p_nodegens p); [reflexivity|discriminate].
+  - generalize dependent (p_nodegens p). induction (db_nodes db) as [|n ns IH]; intros [|ng l] H; cbn in H; try discriminate.
+    + constructor.
+    + apply andb_true_iff in H. destruct H as [H1 H2]. constructor; [apply nodegen_ok_correct; exact H1|apply IH; exact H2].
+Qed.
+
+(** ** link to C11's model of the enum String() (Gen/Api.v [enum_string]) *)
+Lemma prim_bool_iff_len1 s : (s_length s =? 1) = true -> signal_prim_type s = PBool.
+Proof.
+  intros H. apply Z.eqb_eq in H. unfold signal_prim_type. rewrite H. reflexivity.
+Qed.
+Lemma prim_not_bool s : (s_length s =? 1) = false -> signal_prim_type s <> PBool.
+Proof.
+  intros H. unfold signal_prim_type. rewrite H.
+  repeat match goal with |- context [if ?c then _ else _] => destruct c end; discriminate.
+Qed.
+Lemma lookup_text_find s v : (s_length s =? 1) = false -> forall vds,
+  lookup_text (map (fun vd => (vdesc_value vd, vdesc_text vd)) vds) v =
+  match find (fun vd => case_matches (case_of s vd) v) vds with Some vd => Some (vdesc_text vd) | None => None end.
+Proof.
+  intros H. induction vds as [|vd tl IH]; cbn; [reflexivity|]. unfold case_of at 1. rewrite H. cbn [case_matches].
+  destruct (vdesc_value vd =? v); [reflexivity|exact IH].
+Qed.
+Lemma lookup_text_bool_find s v : (s_length s =? 1) = true -> forall vds,
+  lookup_text_bool (map (fun vd => (vdesc_value vd, vdesc_text vd)) vds) (negb (v =? 0)) =
+  match find (fun vd => case_matches (case_of s vd) v) vds with Some vd => Some (vdesc_text vd) | None => None end.
+Proof.
+  intros H. induction vds as [|vd tl IH]; cbn; [reflexivity|]. unfold case_of at 1. rewrite H. cbn [case_matches].
+  destruct (Bool.eqb (vdesc_value vd =? 1) (negb (v =? 0))); [reflexivity|exact IH].
+Qed.
+Theorem enum_string_spec_is_api hp m s v :
+  has_custom_type s = true -> enum_string_spec m s v = Api.enum_string (signal_api_with hp m s) v.
+Proof.
+  intros Hc. unfold enum_string_spec, Api.enum_string, signal_api_with.
+  cbn [sa_enum sa_prim sa_texts]. rewrite Hc.
+  destruct (s_length s =? 1) eqn:E.
+  - rewrite (prim_bool_iff_len1 s E), (lookup_text_bool_find s v E).
+    destruct (find (fun vd => case_matches (case_of s vd) v) (s_value_descriptions s)); [reflexivity|].
+    destruct (v =? 0); reflexivity.
+  - pose proof (prim_not_bool s E) as Hn. rewrite (lookup_text_find s v E).
+    destruct (signal_prim_type s); try congruence;
+      (destruct (find (fun vd => case_matches (case_of s vd) v) (s_value_descriptions s)); reflexivity).
 Qed.
